@@ -116,3 +116,17 @@ class LogRS(np.random.RandomState):
 
     def choice(self, *a, **k):
         self.calls.append(("choice", len(a[0]))); return super().choice(*a, **k)
+
+
+def m_pwg(x, group, ans):
+    out = list(x)
+    for k in sorted(set(group)):
+        pos = [i for i, g in enumerate(group) if g == k]
+        vals = m_fy([out[i] for i in pos], ans)
+        for i, v in zip(pos, vals):
+            out[i] = v
+    return out
+
+
+def m_rows(m, ans):
+    return [m_fy(r, ans) for r in m]
